@@ -47,6 +47,8 @@ def seed_status():
     d = os.path.join(ROOT, 'seeded')
     hit, miss = [], []
     for sid in sorted(os.listdir(d)):
+        if not os.path.isdir(os.path.join(d, sid)):
+            continue
         m = json.load(open(os.path.join(d, sid, 'meta.json')))
         (hit if m['property'] in m.get('detected_by', []) else miss).append(sid)
     return len(hit) + len(miss), ', '.join(hit) or 'none', ', '.join(miss) or 'none'
